@@ -1,5 +1,6 @@
 (* Round-trip proofs for the msgp model: decoders invert encoders on well-formed values. *)
 From FF Require Import model.Bytes model.Msgp model.Wf proofs.Bytes_Proofs.
+From FF Require Import proofs.Take_Proofs.
 From Coq Require Import Lia ZifyN ZifyNat ZifyBool.
 Open Scope N_scope.
 
@@ -42,7 +43,7 @@ Lemma p256_8 : 256 ^ N.of_nat 8 = 18446744073709551616. Proof. reflexivity. Qed.
 
 Lemma take_app s rest : take (len s) (s ++ rest) = Ok (s, rest).
 Proof.
-  unfold take. rewrite len_app.
+  rewrite !take_unfold. rewrite len_app.
   destruct (N.leb_spec (len s) (len s + len rest)); [|lia].
   unfold len. rewrite Nnat.Nat2N.id.
   rewrite firstn_app, Nat.sub_diag, firstn_all, firstn_O, app_nil_r.
